@@ -546,7 +546,7 @@ def _cli_error(res, case):
 CHAIN_LAYOUTS = [('a.case', 'b.xly', 'c.xly'), ('cases/a.case', 'b.xly', 'c.xly'), ('cases/a.case', 'inc/b.xly', 'more/c.xly'), ('a.case', 'inc/b.xly', 'more/c.xly'),
                  ('cases/a.case', '../b.xly', 'sub/c.xly'), ('x/y/a.case', 'inc/b.xly', '../c.xly'), ('cases/a.case', 'inc/b.xly', 'more/c.xly', 'deep/er/d.xly')]
 CHAIN_ERRORS = [('no-such-instruction x', 'SYNTAX_ERROR', 65), ('including missing-file.xly', 'FILE_ACCESS_ERROR', 65), ('run % p @[UNDEFINED]@', 'VALIDATION_ERROR', 65),
-                ('stub-less-hard-error', 'HARD_ERROR', 128)]
+                ('stub-less-hard-error', 'HARD_ERROR', 128), ('cycle-to-root', 'FILE_ACCESS_ERROR', 65)]
 
 
 def _cli_chain(res, case):
@@ -566,6 +566,10 @@ def _cli_chain(res, case):
     paths = [layout[0]]
     for rel in layout[1:]:
         paths.append(posixpath.normpath(posixpath.join(posixpath.dirname(paths[-1]), rel)))
+    cycle = errline == 'cycle-to-root'
+    if cycle:
+        # the last file includes the test-case file itself: reported at THAT directive, with every including file named once
+        errline = 'including ' + posixpath.relpath(paths[0], posixpath.dirname(paths[-1]) or '.')
     for i, p in enumerate(paths):
         if i + 1 < len(paths):
             pre = '[setup]\n' if i == 0 else ''
@@ -594,6 +598,12 @@ def _cli_chain(res, case):
             errs.append('the report does not name %r (in order, after position %d): %r' % (needle, pos, o.err[:900]))
             break
         pos = j + len(needle)
+    if cycle and not errs:
+        first = '%s%s, line' % (prefix, paths[0])
+        if o.err.count(first) != 1:
+            errs.append('the report names the test-case file %d times in the chain of including files, expected once: %r' % (o.err.count(first), o.err[:900]))
+        if o.err.find(errline, pos) < 0:
+            errs.append('the report does not show the directive that closes the cycle (`%s` in %s) after the chain: %r' % (errline, paths[-1], o.err[:900]))
     res.outcomes[('cli-chain', o.ident)] += 1
     if errs:
         res.violation(case, errs)
